@@ -41,6 +41,11 @@ class C11(HistProp):
         ts = [t for t in trees.corpus(tier, rng, assigned_only=True) if len(trees.enc(t)) <= 300]
         if tier != 'thorough': ts = ts[::3]
         setups = [(['load 0 ' + gen.hexs(trees.enc(t))], t[0]) for t in ts] + [(x, {'arr': 'a', 'map': 'm'}.get(x[-1].split()[0] if x[-1].split()[0] in ('arr', 'map') else ('arr' if any(y.startswith('push 0') for y in x) else 'map' if any(y.startswith('madd 0') for y in x) else ''), '')) for x in SHARED]
+        # text with multi-byte UTF-8 (the decoder records its code point count), also as chunks incl. an empty one, also nested: the copy must carry the same counts
+        mb = 'h\u00e9llo\u20ac\U0001F600'.encode('utf-8'); mb2 = '\u00e9\u20ac'.encode('utf-8')
+        def tx(b): return bytes([0x60 + len(b)]) + b
+        for e in (tx(mb), b'\x7f' + tx(mb2) + tx(b'') + tx(mb) + b'\xff', b'\xa1' + tx(mb2) + b'\x82' + tx(mb) + b'\xc1' + tx(mb2), b'\x9f\x7f' + tx(mb) + b'\xff\xff'):
+            setups.append((['load 0 ' + gen.hexs(e)], ''))
         for setup, kind in setups:
             for variant in ('release_source', 'release_copy', 'mutate'):
                 l = ['HRESET'] + ['H ' + x for x in setup]
@@ -64,6 +69,7 @@ class C11(HistProp):
         ci = lines.index('H copy 1 0')
         d0, s0 = outs[ci - 2], outs[ci - 1]
         c = outs[ci]
+        if 'COPY-METADATA-DIFFERS' in c: return (ci, 'the copy differs from the source in the code point count of a text string')
         if not c.startswith('item'): return (ci, 'cbor_copy returned NULL without any allocation failure')
         if 'fresh=1' not in c:
             return (ci, 'the copy shares a node or buffer with the source, contains a node twice, or has a node with refcount != 1')
